@@ -45,6 +45,7 @@ def run(chk: Check, proj: Project) -> None:
     chk.borrow("S6", "a cached Template is transparent only if rendering it does not depend on earlier renders: Node objects of the library store nothing on themselves at render time (a memo on a Node lives as long as the template stays cached - e.g. the component class looked up once survives a re-registration of the name) (shared with C07-S1-A2)",
                lambda sub: (C07.s1a_nodes(sub, proj, w_, set()), C07.s1a_parsed_values(sub, proj, w_)), only=lambda o: "Node" in o.construct or "node" in o.construct or "no-shared-write" in o.construct)
     s5_accessors(chk, proj, ["TEMPLATE_CACHE_SIZE"], rule="S5")
+    s7_values_are_opaque(chk, proj)
     cm, cf = proj.func("cache", "get_template_cache")
     c = calls(cf, "LRUCache")
     ok = bool(c) and norm(kwarg(c[0], "maxsize") or (c[0].args[0] if c[0].args else ast.Constant(value=None))) == "app_settings.TEMPLATE_CACHE_SIZE"
@@ -476,6 +477,30 @@ def s4(chk: Check, proj: Project) -> None:
     at = cond_atoms(enclosing_stmt(s_[0]))
     okm = stv == retn and any(pol and t == f"{got} is None" for t, pol in at)
     chk.ob("S4", "template:cached_template:store-on-miss", m.loc(s_[0]), okm, "the compiled template is stored on a miss")
+
+
+def s7_values_are_opaque(chk: Check, proj: Project) -> None:
+    chk.rule("S7", "the cache is transparent for EVERY value: the stored value is opaque to the LRU - no branch of set / get / has depends on the value (None, falsy values and objects with a custom __eq__ / __bool__ are stored, found and aged like any other); a store that is skipped 'because None looks like a miss' leaves the previous value in place, so get() returns something that was overwritten")
+    m = proj.mod("util.cache")
+    cls = m.cls("LRUCache")
+    from ..astq import params as _params
+
+    n = 0
+    for fn in [x for x in cls.body if isinstance(x, ast.FunctionDef) and x.name in ("set", "_set", "get", "_get", "has", "_has")]:
+        ps = _params(fn)
+        vals = {p for p in ps[2:]}  # (self, key, value...)
+        # locals that hold a stored value: `<x> = <node>.value`
+        for st in ast.walk(fn):
+            if isinstance(st, ast.Assign) and isinstance(st.value, ast.Attribute) and st.value.attr == "value":
+                vals |= {t.id for t in st.targets if isinstance(t, ast.Name)}
+        tests = [x.test for x in ast.walk(fn) if isinstance(x, (ast.If, ast.IfExp, ast.While))] + [x for x in ast.walk(fn) if isinstance(x, ast.Compare) and isinstance(getattr(x, "parent", None), ast.Return)]
+        n += 1
+        chk.analysed(f"{m.name}:LRUCache.{fn.name}")
+        bad = [t for t in tests if any((isinstance(x, ast.Name) and x.id in vals) or (isinstance(x, ast.Attribute) and x.attr == "value") or (isinstance(x, ast.Call) and isinstance(x.func, ast.Attribute) and x.func.attr in ("get", "_get") and norm(x.func.value) == "self") for x in ast.walk(t))]
+        chk.ob("S7", f"util.cache:LRUCache.{fn.name}:no-branch-on-the-value", m.loc(bad[0]) if bad else m.loc(fn), not bad,
+               "no test mentions the stored value" if not bad else
+               f"`{short(bad[0])}` makes {fn.name}() behave differently for some values: set('a', v); set('a', None); get('a') returns v (the overwritten value) instead of None, has() stays False for a stored None - and a membership test routed through get() also refreshes recency, so the wrong entry is evicted next")
+    chk.floor("S7", n, 3)
 
 
 MANIFEST = {
